@@ -21,6 +21,7 @@
           max  the base as it is (all optional siblings present)
           min  every optional sibling of every mapping on the path removed
           rev  the entries of the nearest enclosing mapping in reverse order
+          revall  every mapping on the path in reverse order (thorough tier)
         Prediction: at least one diagnostic located on that scalar; of class expr-syntax unless the
         domain is one of Schema!NonTemplate or the placeholder is the unterminated one ("${{ 1 +" is literal
         text for GitHub: only the first half of the property applies).  Domains of Schema!WholeScalar only
@@ -30,8 +31,8 @@ EXTENDS Schema
 CONSTANTS Props,       \* subset of {"C13", "C03"}
           BaseSet,     \* base indices to walk
           Variants,    \* placeholder variants, subset of 1..5
-          Styles,      \* quoting of the placeholder: subset of {"auto", "'", "\""}
-          Configs,     \* subset of {"max", "min", "rev"}
+          Styles,      \* quoting of the placeholder: subset of {"auto", "single", "double"}
+          Configs,     \* subset of {"max", "min", "rev", "revall"}
           Cases,       \* subset of {"same", "upper", "mixed"}
           SensorModes  \* subset of BOOLEAN
 
@@ -74,8 +75,15 @@ NearestMap(d, path) ==
            n == NodeAt(d, up) IN
        IF n.k = "m" /\ Len(n.p) >= 2 THEN up ELSE NearestMap(d, up)
 
+\* reverse every mapping (>= 2 entries) on the path
+RECURSIVE RevAll(_, _, _)
+RevAll(d, done, rest) ==
+  (IF d.k = "m" /\ Len(d.p) >= 2 THEN <<[op |-> "rev", path |-> done]>> ELSE <<>>)
+  \o (IF rest = <<>> THEN <<>> ELSE RevAll(Kid(d, Head(rest)), Append(done, Head(rest)), Tail(rest)))
+
 CfgOps(b, path, cfg) ==
   CASE cfg = "max" -> <<>>
+    [] cfg = "revall" -> RevAll(Bases[b], <<>>, Front(path))
     [] cfg = "min" -> MinOps(Root, Bases[b], <<>>, path)
     [] cfg = "rev" -> LET m == NearestMap(Bases[b], path) IN
                       IF m = <<0>> THEN <<>> ELSE <<[op |-> "rev", path |-> m]>>
